@@ -23,7 +23,7 @@ WORKERS = {"quick": 4, "thorough": 16}
 CONTEXTS = ["bare", "params", "photos", "photos+params", "wrapped", "extended-daughters", "extended-params", "space-before-semicolon"]
 REQUIRED = {**{f"context:{c}": 135 for c in CONTEXTS}, "published-name-in-all-contexts": 1, "prefix-pairs-all": 1, "published-after-user-registration": 135,
             "user-name": 200, "user-name:special-char:.": 3, "user-name:special-char:+": 3, "user-name:special-char:*": 3, "user-name:special-char:(": 3,
-            "user-name:ends-in-nonword": 5, "user-name:extends-published": 20, "user-name:prefix-of-published": 20, "registration:several-calls": 20, "registration:published-name-among-the-new-ones": 10, "registration-after-a-refused-parse": 10, "registered-names-second-parse": 20, "grammar-accessed-before-registration": 10, "grammar-accessed-between-registrations": 5, "grammar-accessed-after>=2-registrations-and-before-another": 3, "crlf-text": 10,
+            "user-name:ends-in-nonword": 5, "user-name:extends-published": 20, "user-name:prefix-of-published": 20, "registration:several-calls": 20, "model-alias-of-a-registered-model": 10, "registration:published-name-among-the-new-ones": 10, "registration-after-a-refused-parse": 10, "registered-names-second-parse": 20, "grammar-accessed-before-registration": 10, "grammar-accessed-between-registrations": 5, "grammar-accessed-after>=2-registrations-and-before-another": 3, "crlf-text": 10,
             "near-miss-rejected": 300, "near-miss:dot-replaced": 3, "near-miss:alias-misspelled": 5, "near-miss:alias-of-an-earlier-file": 5, "near-miss:registered-on-another-instance": 20, "alias-name-extends-model": 20}
 EXHAUSTIVE_NOTE = "all 135 published names x 8 contexts and all ordered prefix pairs are enumerated across the workers in every run"
 ASSUMPTIONS = ["labels next to model names extend them by letters, digits or '_' only (PHSP-x is, by the language's own tokenisation, PHSP with parameter -x)",
@@ -273,6 +273,12 @@ def run(ctx):
                 if m != u and (u.startswith(m) or m.startswith(u)):
                     lines.append(lines_for(rng, m, "params", allm))
         stmts = [{"k": "Decay", "m": "B0", "lines": lines}]
+        if it % 3 == 0:
+            # a ModelAlias standing for a *registered* model, used by a line: the line reports the registered name and the alias' parameters
+            u0 = um[0]
+            stmts.insert(rng.choice([0, 1]), {"k": "ModelAlias", "name": "MyUserAlias", "model": u0, "params": ["1.0", "x"]})
+            lines.append({"bf": "0.125", "fs": ["pi+", "pi-"], "photos": rng.random() < 0.5, "model": "MyUserAlias", "params": []})
+            ctx.hit("model-alias-of-a-registered-model")
         if not all(L.label_ok(x, allm) for x in labels_of(stmts)):
             continue
         okk = check_accept(ctx, stmts, calls, "user")
